@@ -36,7 +36,8 @@ CHECKS = {
         design_ref='DESIGN.md section 5, C05',
         level_text=('ComparisonDataset::compare equals an independent implementation of Figures 34/35 for every pair of data sets (antisymmetric; transitive on consistent sets); '
                     'calculate_recommended_state equals Figure 33 with the documented deviations for every own data set, Ebest, Erbest and state; '
-                    'set_recommended_state equals Tables 30-33 for every prior state, decision code, slave-only/master-only/multiport setting, incl. data set updates.'),
+                    'set_recommended_state equals Tables 30-33 for every prior state, decision code, slave-only/master-only/multiport setting, incl. data set updates; '
+                    'the comparison data sets are built from the right fields; PtpInstance::bmca recomputes every Erbest once, hands one Ebest to every decision, applies each decision to its own port and ages every port once.'),
         level_note=_trust_k + ' The composition over the loops of PtpInstanceState::bmca is machine-checked for two ports against recording stubs of the callees; more ports: paper step (uniform loops).',
     ),
     'C06': dict(
@@ -97,14 +98,15 @@ CHECKS = {
         engine='engine-k', technique='Kani/CBMC IEEE-754 bit-precise leaf contracts of the servo (clamp, change_frequency, steer, demobilize, BasicFilter step)',
         design_ref='DESIGN.md section 5, C13',
         level_text=('From any NaN-free estimator state and any configuration with positive finite bounds: the frequency handed to Clock::set_frequency is finite and within +-max_freq_offset; '
-                    'the clock is stepped only when |offset| >= step threshold and then by -offset; demobilize issues at most one command; BasicFilter commands are finite.'),
+                    'the clock is stepped only when |offset| >= step threshold and then by -offset; demobilize issues at most one command; BasicFilter commands are finite; '
+                    'KalmanFilter::measurement arms the frequency control only for a measurement carrying a sync or delay offset.'),
         level_note='Trusted: Kani/CBMC float model (bit-precise for + - * / comparisons); matrix updates stubbed; NaN-freedom over whole trajectories is an assumption.',
     ),
     'C14': dict(
         engine='engine-k + engine-v', technique='Kani/CBMC: peer-delay handlers equal a specification transition function incl. second responder -> Faulty',
         design_ref='DESIGN.md section 5, C14',
         level_text=('send_p2p_delay_request, handle_pdelay_timestamp, handle_peer_delay_response, handle_peer_delay_response_follow_up: post == spec_step(pre, input); link delay = '
-                    '((t4-t1)-(t3-t2))/2 of one request and one responder; a second responder => Faulty, its timestamps not stored, filter replaced and demobilized once; '
+                    '((t4-t1)-(t3-t2))/2 of one request and one responder; a second responder => Faulty, its timestamps not stored, the doubly answered exchange dropped (fix 0ba8a9d), filter replaced and demobilized once; '
                     'recovery only through a completed single-responder exchange. Open findings: Faulty is also left by the receipt timeout and by the multiport rule.'),
         level_note=_trust_k,
     ),
